@@ -68,8 +68,18 @@ static int err_code(std::exception_ptr ep)
     }
 }
 
+static int ec_code(pika::error_code const& ec)
+{
+    if (!ec) return 1;
+    if (ec.value() == static_cast<int>(pika::error::deadlock)) return 2;
+    if (ec.value() == static_cast<int>(pika::error::lock_error)) return 3;
+    return 9;
+}
+
 static void run_one(case_t const& c)
 {
+    // ec=1: the case uses the non-throwing overloads (caller-supplied error_code); the log is the same
+    bool const use_ec = c.geti("ec", 0) != 0;
     int k = int(c.threads.size());
     auto* ctl = new controller(k, std::uint64_t(c.geti("seed", 1)), int(c.geti("strat", 0)));
     ctl->max_steps = std::size_t(c.geti("maxsteps", 20000));
@@ -101,7 +111,14 @@ static void run_one(case_t const& c)
                         int r = 1;
                         try
                         {
-                            if (timed) tmx->lock();
+                            if (use_ec)
+                            {
+                                pika::error_code ec(pika::throwmode::lightweight);
+                                if (timed) tmx->lock(ec);
+                                else mx->lock(ec);
+                                r = ec_code(ec);
+                            }
+                            else if (timed) tmx->lock();
                             else mx->lock();
                         }
                         catch (...)
@@ -114,7 +131,14 @@ static void run_one(case_t const& c)
                     else if (op.name == "trylock")
                     {
                         pt("inv.trylock", o);
-                        bool r = timed ? tmx->try_lock() : mx->try_lock();
+                        bool r;
+                        if (use_ec)
+                        {
+                            pika::error_code ec(pika::throwmode::lightweight);
+                            r = timed ? tmx->try_lock(ec) : mx->try_lock(ec);
+                        }
+                        else
+                            r = timed ? tmx->try_lock() : mx->try_lock();
                         nt("ret", o, r);
                         if (r) cs_enter(o, st);
                     }
@@ -132,7 +156,14 @@ static void run_one(case_t const& c)
                         int r = 1;
                         try
                         {
-                            if (timed) tmx->unlock();
+                            if (use_ec)
+                            {
+                                pika::error_code ec(pika::throwmode::lightweight);
+                                if (timed) tmx->unlock(ec);
+                                else mx->unlock(ec);
+                                r = ec_code(ec);
+                            }
+                            else if (timed) tmx->unlock();
                             else mx->unlock();
                         }
                         catch (...)
